@@ -135,6 +135,17 @@ def closure_worker(which):
     return {"which": which, "viols": rows, "functions": sorted(fns)}
 
 
+def prepare_new_rule(ctx, rep, rule="C04.NEW"):
+    rep.rules[rule] = "prepare(): when the incoming collection fails check_type, items are added to a newly created collection"
+    from .c03 import prep_worker
+    for r in pmap(prep_worker, ["sequence", "mapping", "set"]):
+        bad = [row for row in r["rows"] if not row["whole_checked"] and row["collection"] == "incoming"]
+        rep.oblige(rule, f"{r['fam']}.prepare", not bad)
+        for row in bad[:1]:
+            rep.violate(Violation(rule, f"{rule}|{r['fam']}", "prepare() re-inserts into the old collection instead of a new one", "", "prepare"))
+
+
+
 def _check_main(ctx, rep: Report):
     rep.rules["C04.AT"] = ("in-place routes: no raise / may-raise primitive / user callback after the first write to a "
                            "pre-existing (RECV/ARG) object, loops unrolled twice; non-trivial = path containing a dirty write")
@@ -174,13 +185,7 @@ def _check_main(ctx, rep: Report):
                               f"{fi.module.relpath}:{fi.node.lineno}", "CollectionAttrMutator._mutate_collection"))
 
     # ---- NEW
-    rep.rules["C04.NEW"] = "prepare(): when the incoming collection fails check_type, items are added to a newly created collection"
-    from .c03 import prep_worker
-    for r in pmap(prep_worker, ["sequence", "mapping", "set"]):
-        bad = [row for row in r["rows"] if not row["whole_checked"] and row["collection"] == "incoming"]
-        rep.oblige("C04.NEW", f"{r['fam']}.prepare", not bad)
-        for row in bad[:1]:
-            rep.violate(Violation("C04.NEW", f"C04.NEW|{r['fam']}", "prepare() re-inserts into the old collection instead of a new one", "", "prepare"))
+    prepare_new_rule(ctx, rep)
 
 
 def check(ctx, rep):
